@@ -250,7 +250,9 @@ PROPS["C18"] = dict(
             "--latest N windowing, CLI exit status, schema drops (DS101)",
     claim="For every file within the bounds the real destructive.Analyzer (with sqlcheck.File span tracking) reports DS102/DS103 at the position of "
           "exactly the statements that drop a table / non-virtual column not created earlier in the same file, and fails iff there is one; "
-          "exhaustive over the bounded statement sequences. Files that drop and re-create the same object are the listed known finding.",
+          "exhaustive over the bounded statement sequences. The listed known finding is exactly the set of drop statements for which the "
+          "whole-file (order-insensitive) span verdict differs from the position-aware one; all other statements, also of the same file, are "
+          "checked exactly.",
     note="Structural enumeration (exhaustive: true) executed on the real SSA; reference = ordered replay in the harness.",
 )
 
@@ -608,12 +610,15 @@ PROPS["C13"] = dict(
 PROPS["C10"] = dict(
     _ca,
     runs={
-        "quick": [dict(_ca, harness="VerifHarness_C10_quick", reach=["crashed-file", "crashed-all", "crashed-none", "no-crash"], validate=16)],
-        "thorough": [dict(_ca, harness="VerifHarness_C10_thorough", reach=["crashed-file", "crashed-all", "crashed-none", "no-crash"], validate=24)],
+        "quick": [dict(_ca, harness="VerifHarness_C10_quick", reach=["crashed-file", "crashed-all", "crashed-none", "no-crash"], validate=16),
+                  dict(_ca, harness="VerifHarness_C10_ckpt", reach=["crashed-file", "crashed-all", "crashed-none", "no-crash", "checkpoint"], validate=16)],
+        "thorough": [dict(_ca, harness="VerifHarness_C10_thorough", reach=["crashed-file", "crashed-all", "crashed-none", "no-crash"], validate=24),
+                     dict(_ca, harness="VerifHarness_C10_ckpt3", reach=["crashed-file", "crashed-all", "crashed-none", "no-crash", "checkpoint"], validate=24)],
     },
     bounds={
         "quick": "directories of 1..2 files x 1..2 statements, --tx-mode {file, all, none}; the index of the store event at which the process dies "
-                 "(transaction begin, statement execution, revision write, commit) is a symbolic integer over the whole run; then the same command is run again",
+                 "(transaction begin, statement execution, revision write, commit) is a symbolic integer over the whole run; then the same command is run again; "
+                 "second family: the same with any one file (or none) tagged atlas:checkpoint",
         "thorough": "same with up to 3 files",
     },
     assumptions=[
@@ -631,15 +636,19 @@ PROPS["C10"] = dict(
     note="Model-store based and bounded; fidelity guarded by executing sampled paths and all counterexamples on the real CLI + SQLite with the crash driver.",
 )
 
+_rows_stubs = {'(*database/sql.Rows).Next': 'verifRowsNext', '(*database/sql.Rows).Scan': 'verifRowsScan',
+               '(*database/sql.Rows).Close': 'verifRowsClose', '(*database/sql.Rows).Err': 'verifRowsErr'}
 PROPS["C03"] = dict(
     _lt,
     runs={
         "quick": [
+            dict(harness="VerifHarness_C03_index2", reach=["recovered", "expression"], stubs=_rows_stubs),
             dict(harness="VerifHarness_C03_names", reach=["recovered"]),
             dict(harness="VerifHarness_C03_checks3", reach=["recovered"], flags=["-domain"]),
             dict(harness="VerifHarness_C03_gen3", reach=["recovered"], flags=["-domain"]),
         ],
         "thorough": [
+            dict(harness="VerifHarness_C03_index3", reach=["recovered", "expression"], stubs=_rows_stubs, cross=False),
             dict(harness="VerifHarness_C03_names", reach=["recovered"]),
             dict(harness="VerifHarness_C03_checks2", reach=["recovered"], cross=False),
             dict(harness="VerifHarness_C03_checks3", reach=["recovered"]),
